@@ -8,7 +8,7 @@ META = {
              '(600 thorough); BEFORE every edit the query battery is run on a random 40% of nodes and on all nodes near the target so every per-node cache '
              'is populated (cache priming); AFTER every successful edit whose source is in sync per the C01 oracle, ~60 queries per node (loc, bloc, pars, '
              'own_src, lines, links, navigation, views, every is_* predicate, docstring, line comment) are compared between the live tree and FST(root.src) in '
-             'lock-step over the pure AST; root identity and a.f links checked. A cell is (op, target type, field, cached-keys-present).'),
+             'lock-step over the pure AST; root identity and a.f links checked. A cell is (op, target type, field, cached-keys-present). The fresh tree is built with the live tree\'s `indent` setting (a documented construction setting, inferred only when not given).'),
     'budget': {'quick': 50, 'thorough': 900},
     'floors': {'quick': {'battery_comparisons': 800, 'nodes_compared': 40000, 'cache_entries_live_at_edit': 50000},
                'thorough': {'battery_comparisons': 15000, 'nodes_compared': 800000, 'cache_entries_live_at_edit': 1000000}},
